@@ -61,7 +61,9 @@ def gen_history(rng):
         op = dict(kind=kind, via=rng.choice(['ecu', 'ca']))
         if kind == 'add':
             op['cb'] = rng.choice(have_timer) if (have_timer and rng.random() < 0.35) else rng.randrange(ncb)
-            op['delta'] = rng.choice(GRID)
+            # mostly the coarse grid; in a third of the registrations any value k ms on the 1 ms grid up to 3 s (over the run every value), and now
+            # and then a value between the milliseconds
+            op['delta'] = rng.choice([rng.choice(GRID), rng.choice(GRID), rng.randint(1, 3000) / 1000.0 if rng.random() < 0.9 else round(rng.uniform(0.0015, 2.5), 6)])
             have_timer.append(op['cb'])
         elif kind == 'remove':
             op['cb'] = rng.choice(have_timer)
